@@ -5,19 +5,14 @@ import UtilModel.Core.Monitor
 
 The automata mention only API-level events (invocations, results, entry/exit of the managed function, exit
 callbacks, backoff calls, probes of contexts and returned channels, quiescence points). They are evaluated by the
-driver on histories recorded from the real code; `monC04x` is additionally proved to accept every trace of the
-model (`Props.C04x_obs`).
+driver on histories recorded from the real code; the overlap clause `monC04a` of `monC04` is proved to accept
+every trace of the model (`Props.C04a_obs`).
 -/
 namespace UtilModel.Routine
 
 /-- does this call replace the routine (`SetRoutine`, `SetState`, `SetStateRoutine`, `SwapValue`)? -/
 def Op.isSet : Op → Bool
   | .setRoutine _ | .setState _ | .setStateRoutine _ | .swap _ => true
-  | _ => false
-
-/-- does the call itself ask for the nil routine / the empty state? -/
-def Op.clears : Op → Bool
-  | .setRoutine 0 | .setState 0 | .setStateRoutine 0 | .swap (some 0) => true
   | _ => false
 
 /-- did the call hand out a non-nil wait channel? -/
@@ -31,8 +26,6 @@ structure C04St where
   running : List Nat := []                 -- entered and not yet returned (entry numbers)
   snaps : List (Nat × List Nat) := []      -- per set-call: the instances running when it was invoked
   ops : List (Nat × Op) := []
-  tainted : Bool := false                  -- only used by `monC04x`
-  pend : List Nat := []                    -- only used by `monC04x`: clearing calls in flight
 deriving Repr
 
 def lookupSnap (l : List (Nat × List Nat)) (a : Nat) : List Nat :=
@@ -56,8 +49,8 @@ def monC04 : ObsMonitor Obs C04St where
     | .probeW a true => if (lookupSnap ms.snaps a).all (fun k => !ms.running.contains k) then some ms else none
     | _ => some ms
 
-/-- first clause of `monC04` alone (no two instances execute together); proved to accept every model trace that
-avoids the D16 pattern (`Props.C04a_obs_partial`) -/
+/-- first clause of `monC04` alone (no two instances execute together); proved to accept every model trace
+(`Props.C04a_obs`) -/
 def monC04a : ObsMonitor Obs C04St where
   init := {}
   step := fun ms o =>
@@ -65,26 +58,6 @@ def monC04a : ObsMonitor Obs C04St where
     | .cbin k _ _ _ => if ms.running.isEmpty then some { ms with running := [k] } else none
     | .cbout k _ => some { ms with running := ms.running.filter (· != k) }
     | _ => some ms
-
-/-- **C04 outside the open finding D16**: as `monC04`, but once a call that asks for the nil routine (or the
-empty state) has returned a non-nil wait channel — the container has forgotten the exit channel of an instance
-that may still be executing — nothing more is demanded. While such a call is in flight (its critical section may
-already have happened, its result is not yet known) the two checks are suspended. -/
-def monC04x : ObsMonitor Obs C04St where
-  init := {}
-  step := fun ms o =>
-    if ms.tainted then some ms else
-    match o with
-    | .inv a op =>
-      (monC04.step ms (.inv a op)).map fun ms' => if op.clears then { ms' with pend := a :: ms'.pend } else ms'
-    | .ret a r =>
-      if ms.pend.contains a then
-        (if r.hasCh then some { ms with tainted := true } else some { ms with pend := ms.pend.filter (· != a) })
-      else some ms
-    | .cbin k f arg root =>
-      if ms.pend.isEmpty then monC04.step ms (.cbin k f arg root) else some { ms with running := ms.running ++ [k] }
-    | .probeW a b => if ms.pend.isEmpty then monC04.step ms (.probeW a b) else some ms
-    | o => monC04.step ms o
 
 /-! ## C05 -/
 
